@@ -75,7 +75,7 @@ def make_run(pre_factories, label, fn, backend):
             if p.value[0] == "rejected":
                 vc.queries += 1
                 continue
-            _, new, state, aux, tables = p.value
+            _, new, state, aux, tables, _probe = p.value
             node = new._ast
             if isinstance(node, TS.verbs_tree.Alias) and node.uuid_map is not None:
                 inv = {v: k for k, v in node.uuid_map.items()}
